@@ -67,12 +67,26 @@ def _sets(ctx):
                      maxlen=rnd.choice([16384, 60000]) if big else rnd.choice([256, 1000, 2048, 3584]),
                      osmax=rnd.choice([4096, 65536, 300000] + ([1048576, 4194304] if thorough else [1048576])),
                      flavour=rnd.choice(['asan', 'asan', 'rel']), big=big)
+        # a third of the random sets mix puts and gets on the same ordered pairs; the tag counters of the ranks are first moved to
+        # disjoint ranges (--tag-offset) so that the unchanged engine never has two transfers with one tag in flight on a channel
+        s['mixed'] = (i >= 3 and i % 2 == 1) if not thorough else (i >= 3 and i % 3 == 0)
         s['seed'] = ctx.seed * 100003 + i
         s['steps'] = max(30, msgs // (5 * s['ranks']))
         s['burst'] = rnd.choice([12, 24, 40])
         s['between'] = rnd.choice([0, 100, 300, 700])
         s['w'] = rnd.choice([(70, 15, 15), (70, 15, 15), (40, 30, 30), (90, 5, 5), (60, 40, 0), (60, 0, 40)]) if i > 1 else (70, 15, 15)
         s['kprog'] = rnd.choice([20, 200])
+        if s['mixed']:
+            if not (s['w'][1] and s['w'][2]):
+                s['w'] = (60, 20, 20)
+            if thorough:
+                s['w'] = rnd.choice([(90, 5, 5), (85, 10, 5), (85, 5, 10)])
+            tot = float(sum(s['w']))
+            bound = s['steps'] * (s['w'][1] + s['w'][2]) / tot * s['ranks']      # tags one rank can consume: gets issued + puts served
+            off = 256
+            while off < 4 * bound:
+                off *= 2
+            s['tag_offset'] = off
         s['id'] = i
         sets.append(s)
     return sets
@@ -91,7 +105,7 @@ def _env(s):
 def _cmd(exe, s, extra=()):
     return [exe, '--seed', s['seed'], '--steps', s['steps'], '--tags', s['tags'], '--maxlen', s['maxlen'], '--os-max', s['osmax'],
             '--w-am', s['w'][0], '--w-put', s['w'][1], '--w-get', s['w'][2], '--burst', s['burst'], '--progress-between', s['between'],
-            '--kprog', s['kprog'], '--pair-safe'] + list(extra)
+            '--kprog', s['kprog']] + (['--tag-offset', s['tag_offset']] if s.get('mixed') else ['--pair-safe']) + list(extra)
 
 
 def _mpi_errors(ctx, r, what, feature=None):
@@ -119,6 +133,14 @@ def _one(ctx, exe, s, what, extra=(), feature=None, ranks=None, timeout=None, st
         return r, 'violation'
     st = ctx.absorb(r, what, feature)
     if st == 'stalled':
+        try:        # keep the stacks of a stall that may not repeat
+            import os
+            from vfcore import REPLAYS
+            os.makedirs(REPLAYS, exist_ok=True)
+            open(os.path.join(REPLAYS, '%s-stalled-once-set%s-seed%d.txt' % (ctx.prop, s['id'], ctx.seed)), 'w').write(
+                '%s\ncmd: %s\nenv: %s\n\n%s\n\nstderr tail:\n%s' % (what, ' '.join(cmd), env, r.backtraces, r.stderr[-3000:]))
+        except Exception:
+            pass
         r2 = runner()
         if _mpi_errors(ctx, r2, what, feature):
             return r2, 'violation'
@@ -149,15 +171,16 @@ def run(ctx):
         'the source/tag/size arguments of the source-side completion of a get come from a send status and are not checked',
         'global quiescence = all ranks finished generating, totals exchanged, and N consecutive lock-step rounds of K progress calls on every '
         'rank without a single monitored event anywhere',
-        'random sweeps use --pair-safe (one tag counter per ordered data channel) because of the recorded finding onesided:put-get-tag-clash',
+        'because of the recorded finding onesided:put-get-tag-clash, random sweeps either keep one tag counter per ordered data channel '
+        '(--pair-safe) or first move the per-rank tag counters to disjoint ranges (--tag-offset, keys prefixed disjoint-tags:)',
     ]
     exes = {f: harness(ctx, f) for f in ('asan', 'rel')}
     sets = _sets(ctx)
 
     def job(s):
-        what = 'set %d: %d ranks posted/tested/dyn/dynrecv=%s maxlen=%d osmax=%d %s' % (s['id'], s['ranks'], '/'.join(str(x) if x else 'default' for x in s['p']),
-                                                                                   s['maxlen'], s['osmax'], s['flavour'])
-        r, st = _one(ctx, exes[s['flavour']], s, what)
+        what = 'set %d: %d ranks posted/tested/dyn/dynrecv=%s maxlen=%d osmax=%d %s%s' % (s['id'], s['ranks'], '/'.join(str(x) if x else 'default' for x in s['p']),
+                                                                                     s['maxlen'], s['osmax'], s['flavour'], ' put+get on the same pairs' if s.get('mixed') else '')
+        r, st = _one(ctx, exes[s['flavour']], s, what, feature='disjoint-tags' if s.get('mixed') else None)
         return s, what, r, st
 
     # ranks busy-poll: keep the number of simultaneously polling processes well below the core count of the shared box
@@ -170,6 +193,11 @@ def run(ctx):
         sm = r.summary()
         if not sm:
             continue
+        if s.get('mixed'):
+            ctx.add_cov('jobs_mixing_put_get_on_a_pair_with_disjoint_tag_ranges')
+            ctx.max_cov('max_tags_used_after_offset', sm['max_tags_after_offset'])
+            if sm['max_tags_after_offset'] >= s['tag_offset']:
+                ctx.harness_failures.append('%s: a rank used %d tags, more than its offset %d' % (what, sm['max_tags_after_offset'], s['tag_offset']))
         onesided_on = (s['w'][1] + s['w'][2]) > 0
         nontrivial = (sm['am_recv'] >= 100 and sm['bursts_over_pool'] >= 1 and (not onesided_on or sm['put_rcb'] + sm['get_lcb'] >= 10))
         ident = hashlib.sha1(json.dumps([s['ranks'], s['p'], s['tags'], s['maxlen'], s['osmax'], s['flavour'], sm['traffic_hash']]).encode()).hexdigest()[:16]
